@@ -9,6 +9,7 @@ import (
 	"io"
 	"os"
 	"os/exec"
+	"path/filepath"
 	"regexp"
 	"strconv"
 	"strings"
@@ -17,6 +18,7 @@ import (
 
 	"github.com/mimecast/dtail/internal/clients"
 	"github.com/mimecast/dtail/internal/config"
+	sshclient "github.com/mimecast/dtail/internal/ssh/client"
 	"github.com/mimecast/dtail/verif/core"
 	"golang.org/x/crypto/ssh"
 )
@@ -198,22 +200,62 @@ func ServeMain(maxLineLength int, keyLine string) int {
 	return 0
 }
 
-// c01nSeparateServer: the server runs in a process of its own, configured with a MaxLineLength that differs from
-// the one in the client's configuration file (each side has its own dtail.json in a real deployment); the
-// reference splits lines at the SERVER's limit.
+// c01nSeparateServer: the server runs in a process of its own (verifn serve) and the client is the REAL dcat binary
+// built from the tree under test, started the way a user starts it (dcat --plain --servers ... --files ...), with a
+// configuration file whose MaxLineLength differs from the server's (each side has its own dtail.json in a real
+// deployment); the reference splits lines at the SERVER's limit.  One session lasts longer than the client's 3 s
+// statistics interval because nobody reads its output for the first 4.5 s.
 func c01nSeparateServer(c *core.Ctx) {
 	self, err := os.Executable()
 	if err != nil {
 		c.Res.HarnessErr = "os.Executable: " + err.Error()
 		return
 	}
+	dcat := filepath.Join(filepath.Dir(self), "dcat")
+	if _, err := os.Stat(dcat); err != nil {
+		c.Res.HarnessErr = "the dcat binary was not built: " + err.Error()
+		return
+	}
 	dir := core.Scratch() + "/c01n"
+	home := core.Scratch() + "/c01n-home"
+	os.MkdirAll(home+"/.ssh", 0o700)
+	keyFile := home + "/id_rsa"
+	sshclient.GeneratePrivatePublicKeyPairIfNotExists(keyFile, 2048)
+	pub, err := os.ReadFile(keyFile + ".pub")
+	if err != nil {
+		c.Res.HarnessErr = "client key: " + err.Error()
+		return
+	}
+	runBinary := func(addr, file string, mc int, readDelay time.Duration) (string, int) {
+		cfg := fmt.Sprintf("%s/dtail-%d.json", home, mc)
+		os.WriteFile(cfg, []byte(fmt.Sprintf(`{"Server":{"MaxLineLength":%d}}`, mc)), 0o644)
+		ctx, cancel := context.WithTimeout(context.Background(), 120*time.Second)
+		defer cancel()
+		cmd := exec.CommandContext(ctx, dcat, "--plain", "--cfg", cfg, "--servers", addr, "--user", "alice", "--key", keyFile, "--trustAllHosts", "--files", file)
+		cmd.Env = append(os.Environ(), "HOME="+home)
+		cmd.Stdin = nil
+		out, _ := cmd.StdoutPipe()
+		if err := cmd.Start(); err != nil {
+			return "harness: " + err.Error(), -1
+		}
+		time.Sleep(readDelay)
+		b, _ := io.ReadAll(out)
+		status := 0
+		if err := cmd.Wait(); err != nil {
+			status = 1
+			if ee, ok := err.(*exec.ExitError); ok {
+				status = ee.ExitCode()
+			}
+		}
+		return string(b), status
+	}
+	first := true
 	for _, pair := range [][2]int{{100000, 8}, {100000, 64}, {64, 100000}, {8, 1024 * 1024}} {
 		ms, mc := pair[0], pair[1]
 		if c.Expired() {
 			return
 		}
-		cmd := exec.Command(self, "serve", strconv.Itoa(ms), Keys[0].Line)
+		cmd := exec.Command(self, "serve", strconv.Itoa(ms), strings.TrimSpace(string(pub)))
 		cmd.Env = append(os.Environ(), "VERIF_NATIVE_LOGGER=none")
 		stdin, _ := cmd.StdinPipe()
 		stdout, _ := cmd.StdoutPipe()
@@ -241,18 +283,38 @@ func c01nSeparateServer(c *core.Ctx) {
 		}
 		go io.Copy(io.Discard, rd)
 		addr := strings.TrimSpace(strings.TrimPrefix(line, "ADDR "))
+		// first contact: the host key gets recorded in known_hosts (and the client says so); not part of the comparison
+		warm := dir + "/warmup.txt"
+		os.WriteFile(warm, []byte("x\n"), 0o644)
+		runBinary(addr, warm, mc, 0)
+		os.Remove(warm)
 		var contents []string
 		for _, l := range []int{mc - 1, mc, mc + 1, mc + 4095, mc + 4096, mc + 4097, 2*mc + 8200, ms - 1, ms, ms + 1, 2*ms + 1} {
 			if l > 0 && l <= 300000 {
 				contents = append(contents, "first\n"+strings.Repeat("L", l)+"\nlast\n", strings.Repeat("M", l))
 			}
 		}
-		config.Server.MaxLineLength = mc // what the client's configuration says
+		delays := make([]time.Duration, len(contents))
+		if first {
+			// the long session: 4 MB, nobody reads for 4.5 s
+			var sb strings.Builder
+			for i := 0; sb.Len() < 4<<20; i++ {
+				fmt.Fprintf(&sb, "%08d INFO a line of a big file that takes a while to print\n", i)
+			}
+			contents = append(contents, sb.String())
+			delays = append(delays, 4500*time.Millisecond)
+			first = false
+		}
 		for i, content := range contents {
 			name := fmt.Sprintf("%s/sep-%d-%d-%d.txt", dir, ms, mc, i)
 			os.WriteFile(name, []byte(content), 0o644)
-			got, status := runDcat(addr, name)
+			got, status := runBinary(addr, name, mc, delays[i])
 			os.Remove(name)
+			if strings.HasPrefix(got, "harness: ") {
+				stop()
+				c.Res.HarnessErr = got
+				return
+			}
 			want := string(c01nSplit([]byte(content), ms))
 			c.Count(fmt.Sprintf("separate-server|%d|%d|%d", ms, mc, i))
 			if got != want || status != 0 {
@@ -260,8 +322,12 @@ func c01nSeparateServer(c *core.Ctx) {
 				for i < len(got) && i < len(want) && got[i] == want[i] {
 					i++
 				}
-				c.Violation("output-differs-when-client-and-server-configuration-differ", fmt.Sprintf("server process with MaxLineLength %d, client configured with %d, file of %d bytes with a line of %d bytes: dcat --plain printed %d bytes (status %d), want %d; first difference at offset %d",
-					ms, mc, len(content), len(content)-11, len(got), status, len(want), i), c01nCase{Desc: fmt.Sprintf("separate server process ms=%d mc=%d len=%d", ms, mc, len(content)), M: ms})
+				end := i + 120
+				if end > len(got) {
+					end = len(got)
+				}
+				c.Violation("output-differs-with-the-real-dcat-binary-and-a-separate-server", fmt.Sprintf("server process with MaxLineLength %d, real dcat binary configured with %d, file of %d bytes (output first read after %v): dcat --plain printed %d bytes (status %d), want %d; first difference at offset %d: %q",
+					ms, mc, len(content), delays[i%len(delays)], len(got), status, len(want), i, got[i:end]), c01nCase{Desc: fmt.Sprintf("separate server process ms=%d mc=%d len=%d", ms, mc, len(content)), M: ms})
 			}
 		}
 		stop()
@@ -274,7 +340,7 @@ func init() {
 		ReportAs: "C01",
 		Level:    "exploration",
 		Rule: "PART 2 (native, real SSH): file contents = all sequences of <=3 (quick) / <=4 (thorough) tokens over 12 byte tokens, files with two lines longer than the 32 KiB transport buffer, a gzip file; each is served by a real in-process dtail server and fetched by " +
-			"the real dcat client code over x/crypto/ssh on loopback (plain mode); oracle as in part 1; plus the server in a PROCESS OF ITS OWN with a MaxLineLength different from the client's configuration (4 pairs), lines around both limits and around the client's limit + 4096",
+			"the real dcat client code over x/crypto/ssh on loopback (plain mode); oracle as in part 1; plus the REAL dcat binary of the tree (dcat --plain --cfg ... --servers ... --files ...) against the server in a PROCESS OF ITS OWN whose MaxLineLength differs from the client's configuration file (4 pairs), lines around both limits and around the client's limit + 4096, and a 4 MB file whose output nobody reads for the first 4.5 s (a session longer than the client's 3 s statistics interval)",
 		Assumptions: []string{"part 2 runs free (one schedule per input); it binds the serverless results of part 1 to the SSH wiring (server.go, serverconnection.go)"},
 		Serial:      true,
 		QuickBudget: 150 * time.Second,
